@@ -734,6 +734,63 @@ func execC04(raw json.RawMessage, wantLog bool) (out Outcome) {
 			}
 		}
 	}
+	// snapshots that are kept while their author moves on: one replica takes a snapshot at
+	// several positions of the log (raft's log store and the message that carries a snapshot
+	// to a lagging follower hold on to those bytes), and only afterwards each of them is
+	// restored by a fresh replica, which then applies the rest
+	if n >= 2 {
+		where = "kept snapshots"
+		K := newReplica(c, 777)
+		type kept struct {
+			cut  int
+			snap []byte
+			dig  uint64
+		}
+		var ks []kept
+		step := 1 + n/4
+		for i := 0; i <= n; i++ {
+			if i%step == 0 || i == n {
+				K.use()
+				if snap, err := K.p.Snapshot(); err == nil {
+					ks = append(ks, kept{i, snap, simrt.HashBytes(7, snap)})
+					out.Stat("snapshots_kept_while_the_author_moves_on", 1)
+				}
+			}
+			if i < n {
+				K.apply(c.Entries[i], i, data[i])
+			}
+		}
+		for _, k := range ks {
+			where = fmt.Sprintf("kept snapshot of cut %d", k.cut)
+			changed := ""
+			if simrt.HashBytes(7, k.snap) != k.dig {
+				changed = " (the bytes handed out for it changed after a later snapshot was taken)"
+			}
+			R := newReplica(c, uint64(300+k.cut))
+			R.use()
+			if err := R.p.Restore(k.snap); err != nil {
+				out.Violate("C04", "restore-error/kept-snapshot", "the snapshot taken at position %d could not be restored once its author had taken later snapshots%s: %v", k.cut, changed, err)
+				continue
+			}
+			if got := contentsKey(R.p.Dump()); got != prefixDump[k.cut] {
+				out.Violate("C04", "snapshot-differs-from-replay/kept-snapshot", "the snapshot taken at position %d, restored after its author had taken later snapshots, does not hold the state of that position%s", k.cut, changed)
+				continue
+			}
+			ok := true
+			for i := k.cut; i < n && ok; i++ {
+				g := R.apply(c.Entries[i], i, data[i])
+				if g.err != nil || g.desc != refOut[i].desc {
+					out.Violate("C04", fmt.Sprintf("outcome-differs-between-replicas/after-restore-of-kept-snapshot/change-type-%d", c.Entries[i].T), "kept snapshot of position %d: entry %d reported %s, the replaying replica %s (err %v)", k.cut, i, g.desc, refOut[i].desc, g.err)
+					ok = false
+				}
+			}
+			if ok {
+				if diff := diffContents(finalA, R.p.Dump()); diff != "" {
+					out.Violate("C04", "replicas-diverge/after-restore-of-kept-snapshot/"+firstWord(diff), "kept snapshot of position %d + suffix differs from full replay: %s", k.cut, diff)
+				}
+			}
+		}
+	}
 	logf("cuts=%d", n+1)
 	out.Nontrivial = n >= 2
 	return
@@ -777,7 +834,7 @@ func init() {
 		Assumptions: []string{"entries are well-formed; equality is on contents (ids, bit-identical vectors, metadata, levels, counters), the graph may differ"},
 		Real:        []string{"storage.partition process/snapshot/processSnapshot", "index.Hnsw Save/Load", "protobuf codecs"},
 		Stub:        []string{"raft and the log store (entries and snapshots are passed between replicas in memory)"},
-		Probes:      []string{"cuts", "cuts_at_empty_state", "restores_into_used_replica", "double_snapshots"},
+		Probes:      []string{"cuts", "cuts_at_empty_state", "restores_into_used_replica", "double_snapshots", "snapshots_kept_while_the_author_moves_on"},
 		Budget: func(tier string) (int, time.Duration) {
 			if tier == "thorough" {
 				return 60000, 40 * time.Minute
